@@ -746,7 +746,7 @@ INFO = {'C16': {
         'in the map at the instant each handle was built']}}
 for _v in INFO.values():
     _v['rule'] += (
-        '; swarm dimensions (see probes): pre-existing handles and maps, falsy handles, repeated population, trees that change between populations (file becomes directory), dangling links and pipes, glob characters in directory and root names, the root itself as a rule, decomposed/precomposed and upper-case names, other spellings of rule paths, another split_char (class-wide or on the populated map\'s own class), rule keyword names like the populator\'s own parameters, 65-72 nesting populations, relative roots with a chdir in between, names that look like environment / home references ($VERIF_X, ${VERIF_X}, ~)')
+        '; swarm dimensions (see probes): pre-existing handles and maps, falsy handles, repeated population, trees that change between populations (file becomes directory), dangling links and pipes, glob characters in directory and root names, the root itself as a rule, decomposed/precomposed and upper-case names, other spellings of rule paths, another split_char (class-wide or on the populated map\'s own class), rule keyword names like the populator\'s own parameters, 65-72 nesting populations, relative roots with a chdir in between, names that look like environment / home references ($VERIF_X, ${VERIF_X}, ~), rule paths that leave the root and come back by its name, hard links')
 PROBES = {'C16': ['file_became_directory', 'entry_neither_file_nor_directory', 'conflict.trim', 'conflict.preexisting', 'conflict.repeat',
                   'conflict.repeat_rule', 'three_way_conflict',
                   'ext_filter_with_nested_dir', 'empty_dir', 'rule_is_file',
